@@ -997,6 +997,26 @@ def option_grid_cases():
             [A, {"name": "r", "kind": "vp", "ann": "int"}], [A, {"name": "r", "kind": "vp"}], [A],
             [A, {"name": "c", "kind": "ko", "ann": "str", "default": {"v": "d"}}, {"name": "kw", "kind": "vk", "ann": "int"}]]
     out = []
+    # the known-finding shapes under every decorator option (their classification must not depend on the error kind)
+    known = [
+        ("func", [{"name": "n", "kind": "pk", "ann": "int", "default": {"v": 0}}, {"name": "_c", "kind": "pk", "default": {"v": 0}}],
+         ["10"], [["_c", 5]]),
+        ("func", [{"name": "a", "kind": "pk", "ann": "int"}, {"name": "_r", "kind": "ko"}], [1], [["_r", 5]]),
+        ("func", [{"name": "_x", "kind": "pk", "ann": "int"}], ["10"], []),
+        ("func", [{"name": "_x", "kind": "ko", "ann": "int", "default": {"v": 1}}, {"name": "kw", "kind": "vk", "ann": "int"}], [],
+         [["_x", "3"], ["y", "4"]]),
+        ("static_inner", [{"name": "e", "kind": "pk"}, {"name": "_x", "kind": "vp"}], [], [["E", "Yz"]]),
+        ("static_inner", [{"name": "e", "kind": "pk"}, {"name": "kw", "kind": "vk", "ann": "int"}], [], [["E", "3"]]),
+    ]
+    for ctx, params, args, kwargs in known:
+        for extra in [{}] + DECL_OPTIONS:
+            add = extra.get("addition")
+            if (add is True or isinstance(add, dict)) and not any(p["kind"] == "vk" for p in params):
+                continue
+            for dfs in (False, True):
+                out.append({"kind": "bind", "params": params, "ctx": ctx, "wrapper": "sync", "eager": False,
+                            "options": dict(extra, data_first_search=dfs, case_insensitive=True), "retval": {"v": 1},
+                            "args": [enc(a) for a in args], "kwargs": [[k, enc(v)] for k, v in kwargs]})
     for params in sigs:
         has_vk = any(p["kind"] == "vk" for p in params)
         has_vp = any(p["kind"] == "vp" for p in params)
@@ -1136,13 +1156,20 @@ def spec_bind(case, out):
     return verdict(case, out, expected(case))
 
 
-def classify_bind(case, out):
+def classify_bind(case, out, agree=True):
+    """known-finding id of a spec violation, by MECHANISM: the declaration/call has the shape of the finding and the
+    implementation did exactly what the model (which mirrors the documented design) predicts — whatever error kind or
+    binding that is under the case's Options.  A disagreement between model and implementation is never classified."""
+    if not agree:
+        return None
     if guessed_self(case) and not case["args"]:
+        # the bare first parameter was taken for `self`: it is not a field, so a different-case spelling of its name does
+        # not reach it (the key is dropped, kept in **kwargs, or refused — depending on the effective `addition`)
         n = case["params"][0]["name"]
         keys = [k for k, _ in case["kwargs"]]
-        if n not in keys and any(k.lower() == n.lower() for k in keys) and is_ci(case["params"][0], case.get("options")):
-            if out.get("binding") and out["binding"].get(n) == enc(None):
-                return "guessed-self-not-field"
+        if n not in keys and any(k != n and k.lower() == n.lower() for k in keys) \
+                and is_ci(case["params"][0], case.get("options")):
+            return "guessed-self-not-field"
     dc = design_case(case)
     if dc == case:
         return None
@@ -1387,6 +1414,7 @@ class C08(Check):
 
     # ---- the property on what the implementation did -----------------------------------------------
     def spec(self, case, io, mo):
+        self._last = (case, mo)
         if "hang" in io or "crash" in io:
             return f"call did not complete: {io}"
         if case["kind"] == "gen":
@@ -1404,7 +1432,11 @@ class C08(Check):
     def classify(self, case, io, why):
         if case["kind"] == "gen":
             return None
-        return classify_bind(case, io)
+        last = getattr(self, "_last", None)
+        agree = True
+        if last is not None and last[0] is case:
+            agree = self.compare(case, io, last[1]) is None
+        return classify_bind(case, io, agree)
 
     def key(self, case, io):
         ex = expected(case) if case["kind"] == "bind" else None
